@@ -1,4 +1,4 @@
-(* C15: executable model of graphtage/matching.py `min_weight_bipartite_matching` (lines 469-561), step by
+(* C15: executable model of graphtage/matching.py `min_weight_bipartite_matching` (lines 469-562), step by
    step, on top of the TRANSLATED `get_dtype` / `INTEGER_DTYPE_INTERVALS` (GTgen.MatchGen).
    Definitions only.  `solve` stands for scipy.optimize.linear_sum_assignment (an oracle). *)
 From Coq Require Import String List Bool ZArith Lia.
@@ -39,7 +39,7 @@ Fixpoint scan_from (st : scan_st) (cs : list (option weight)) : option scan_st :
   | c :: r => match scan_cell st c with Some st' => scan_from st' r | None => None end
   end.
 
-(* ---- lines 541-548 and 556: dtype choice and np.array(weights, dtype=dtype) *)
+(* ---- lines 542-549 and 557: dtype choice and np.array(weights, dtype=dtype) *)
 Inductive dtype := DBool | DFloat | DInt (d : np_dtype).
 
 Definition fitsb (d : np_dtype) (x : Z) : bool :=
@@ -65,33 +65,35 @@ Definition prepare (u : Z) (W : table) : prep :=
   match scan_from scan_init (cells W) with
   | None => PErr ValueError
   | Some st =>
-      (* the literal 1 in `... + 1` is an int; on a float table it acts as 1.0 = u scaled *)
-      let one := match s_ty st with Some TFloat => u | _ => 1 end in
-      (* lines 526-536.  `isinstance(edge_type, bool)` is never true (edge_type is a class), so the documented
-         ValueError for incomplete bool tables is dead code. *)
-      match (if s_null st then
-               match zmax_list (col_sums W) with
-               | None => inl ValueError                  (* max() of an empty sequence *)
-               | Some mx =>
-                   let nev := mx + one in
-                   match s_max st with
-                   | None => inl TypeError               (* assert int > None  (D14, all pairs missing) *)
-                   | Some me => if nev >? me then inr (nev, Some nev) else inl AssertionError
+      (* lines 526-528: `if edge_type is None: return {}` comes BEFORE the null-edge block: a table with no
+         existing pair (in particular a non-empty table with every pair missing) yields the empty pairing *)
+      match s_ty st with
+      | None => PEmpty
+      | Some t =>
+          (* the literal 1 in `... + 1` is an int; on a float table it acts as 1.0 = u scaled *)
+          let one := match t with TFloat => u | _ => 1 end in
+          (* lines 530-540.  `isinstance(edge_type, bool)` is never true (edge_type is a class), so the documented
+             ValueError for incomplete bool tables is dead code. *)
+          match (if s_null st then
+                   match zmax_list (col_sums W) with
+                   | None => inl ValueError              (* max() of an empty sequence *)
+                   | Some mx =>
+                       let nev := mx + one in
+                       match s_max st with
+                       | None => inl TypeError           (* int > None; unreachable: edge_type is set with max_edge *)
+                       | Some me => if nev >? me then inr (nev, Some nev) else inl AssertionError
+                       end
                    end
-               end
-             else inr (0, s_max st)) with
-      | inl e => PErr e
-      | inr (nev, max_edge') =>
-          (* lines 538-548 *)
-          match s_ty st with
-          | None => PEmpty                               (* return {} *)
-          | Some t =>
+                 else inr (0, s_max st)) with
+          | inl e => PErr e
+          | inr (nev, max_edge') =>
+              (* lines 542-549 *)
               let dt := match t with
                         | TBool => DBool
                         | TFloat => DFloat
                         | TInt => DInt (get_dtype (oz (s_min st)) (oz max_edge'))
                         end in
-              (* lines 550-556: fill the missing pairs, build the array *)
+              (* lines 551-557: fill the missing pairs, build the array *)
               match cast_matrix dt (fill nev W) with
               | None => PErr OverflowError
               | Some M => PSolve (s_null st) nev M
@@ -100,7 +102,7 @@ Definition prepare (u : Z) (W : table) : prep :=
       end
   end.
 
-(* ---- lines 557-561: the dict comprehension over the zipped solver answer.  `weights[i][j]` is the Python-level
+(* ---- lines 558-562: the dict comprehension over the zipped solver answer.  `weights[i][j]` is the Python-level
    table after filling: a present pair keeps its original object, a missing one holds null_edge_value (and
    `null_edge_value < null_edge_value` is false).  None = IndexError (solver answer outside the table). *)
 Fixpoint report (W : table) (hn : bool) (s : Z) (a : list (nat * nat)) : option matching :=
